@@ -67,21 +67,21 @@ UNIT = {
          'rewrites': [('R3',), ('R1', 0), ('RX', 'R11', r'FeelContext::default\(\)', 'feel_context_default()', None)],
          'body_prefix': PRE,
          'ensures': [('caller_scope_untouched', STACK_SAME),
-                     ('too_few_arguments_is_null', 'arguments@.len() < parameters@.len() ==> r is Null', ['C01']),
+                     ('too_few_arguments_is_null', 'arguments@.len() < parameters@.len() ==> r is Null', ['C01', 'C16']),
                      ('parameters_bound_to_coerced_arguments_in_order', 'arguments@.len() >= parameters@.len() ==> exists |ctx: FeelContext| #[trigger] call_result(old(scope).contexts@, ctx, *body, result_type) == r '
-                                                                        '&& ctx.0@ =~= bind_pos(parameters@, arguments@, parameters@.len() as int)', ['C01'])],
+                                                                        '&& ctx.0@ =~= bind_pos(parameters@, arguments@, parameters@.len() as int)', ['C01', 'C16'])],
          'loop_specs': {0: {'invariant': [('scope_not_touched', 'scope.contexts@ == old(scope).contexts@'),
                                           ('bound_so_far', 'i <= parameters@.len() && i <= arguments@.len() && ctx.0@ =~= bind_pos(parameters@, arguments@, i as int)')],
                             'body_prefix': PRE}}},
         {'kind': 'fn', 'src': B, 'path': 'fn eval_function_named', 'key': 'purity::eval_function_named', 'props': PE, 'auto_props': AE, 'loops': 1, 'ret': 'r',
          'sig_rewrite': [(r'^(\s*)fn ', r'\1pub fn '), (r'scope: &Scope', 'scope: &mut Scope')],
-         'rewrites': [('R3',), ('RX', 'R2v', r'for \(parameter_name, parameter_type\) in parameters \{', 'for (parameter_name, parameter_type) in parameters.iter() {', 1),
+         'rewrites': [('R3',), ('RX', 'R2v', r'for \(parameter_name, parameter_type\) in parameters \{', 'for (parameter_name, parameter_type) in parameters.iter() {', None),
                       ('RX', 'R11', r'FeelContext::default\(\)', 'feel_context_default()', None)],
          'body_prefix': PRE,
          'ensures': [('caller_scope_untouched', STACK_SAME),
-                     ('missing_named_argument_is_null', '(arguments is NamedParameters && !all_named(parameters@, arguments->NamedParameters_0@)) ==> r is Null', ['C01']),
+                     ('missing_named_argument_is_null', '(arguments is NamedParameters && !all_named(parameters@, arguments->NamedParameters_0@)) ==> r is Null', ['C01', 'C16']),
                      ('parameters_bound_to_coerced_arguments_by_name', '(arguments is NamedParameters && all_named(parameters@, arguments->NamedParameters_0@)) ==> exists |ctx: FeelContext| '
-                      '#[trigger] call_result(old(scope).contexts@, ctx, *body, result_type) == r && ctx.0@ =~= bind_named(parameters@, arguments->NamedParameters_0@, parameters@.len() as int)', ['C01'])],
+                      '#[trigger] call_result(old(scope).contexts@, ctx, *body, result_type) == r && ctx.0@ =~= bind_named(parameters@, arguments->NamedParameters_0@, parameters@.len() as int)', ['C01', 'C16'])],
          'loop_specs': {0: {'iter_name': 'itp', 'invariant': [('scope_not_touched', 'scope.contexts@ == old(scope).contexts@'),
                                           ('args', '*arguments is NamedParameters && arguments->NamedParameters_0 == *map'),
                                           ('seq', 'itp.seq() =~= parameters@.map_values(|c: (Name, FeelType)| &c)'),
@@ -147,7 +147,7 @@ UNIT = {
         {'kind': 'fn', 'src': B, 'path': 'fn eval_function_definition', 'key': 'purity::eval_function_definition', 'props': PE, 'auto_props': AE, 'loops': 0, 'ret': 'r',
          'sig_rewrite': [(r'^(\s*)fn ', r'\1pub fn '), (r'scope: &Scope', 'scope: &mut Scope')],
          'rewrites': [('R3',), ('RX', 'R8e', r'body\.evaluate\(scope\)', 'function_body_evaluate(body, scope)', 1)],
-         'ensures': [('caller_scope_untouched', STACK_SAME), ('body_over_the_argument_context_then_coerced', 'r == call_result(old(scope).contexts@, *ctx, *body, result_type)', ['C01'])]},
+         'ensures': [('caller_scope_untouched', STACK_SAME), ('body_over_the_argument_context_then_coerced', 'r == call_result(old(scope).contexts@, *ctx, *body, result_type)', ['C01', 'C16'])]},
     ],
 }
 
@@ -257,7 +257,7 @@ NOT_DECIDED = {'C10': ['names introduced while parsing (context keys, formal par
 # fall-back for the invocation functions (also decides them when a rewritten loop leaves the extractor's reach)
 BOUNDED = {'C01': [{'name': 'function-invocation-arity', 'driver': 'feelcases', 'args': ['/verif/replay/cases/C01_invocation.txt'],
                     'functions': ['eval_function_positional', 'eval_function_named', 'eval_function_definition (feel-evaluator builders.rs)'],
-                    'bound': '29 generated calls: user-defined functions of arity 0..3 called positionally with 0..arity arguments and by name with every non-empty subset of the parameter names (too few / missing arguments give null, '
+                    'bound': '42 generated calls (13 of them named / positional calls of functions with typed parameters of different types, in and out of declaration order, with arguments that need the singleton conversions): user-defined functions of arity 0..3 called positionally with 0..arity arguments and by name with every non-empty subset of the parameter names (too few / missing arguments give null, '
                              'a complete call gives the value), typed parameters coercing or nulling the argument, and a missing parameter not captured from the caller (bounded duplicate of the Verus contracts)'}]}
 
 _PURE = {'name': 'evaluation-leaves-the-scope-alone', 'driver': 'purity', 'args': ['/verif/replay/cases/C13_purity.txt'],
@@ -267,3 +267,5 @@ _PURE = {'name': 'evaluation-leaves-the-scope-alone', 'driver': 'purity', 'args'
                   '`a + b + base` is still 19 afterwards (bounded duplicate of the Verus contracts; stands in when a changed body leaves the extractor\'s reach)'}
 BOUNDED['C13'] = BOUNDED.get('C13', []) + [_PURE]
 BOUNDED['C01'] = BOUNDED['C01'] + [_PURE]
+# C16: the declared parameter type is the one the argument is coerced to, whichever way and order the argument is passed
+BOUNDED['C16'] = [b for b in BOUNDED['C01'] if b['name'] == 'function-invocation-arity']
